@@ -1,7 +1,7 @@
 (** C16 - JSON-any codecs.  For all JSON-model trees (any depth and width):
     the round trip through readJSONKV / JSONArrayCodec / JSONMapCodec, sizes,
     and skipping as an unknown field. *)
-From Plenc Require Import Base Varint Wire JsonAny Codec SizeProofs JsonProofs JsonRoundTrip Descriptor Output JsonWalk.
+From Plenc Require Import Base Varint Wire JsonAny Codec SizeProofs JsonProofs JsonRoundTrip Descriptor Output JsonWalk RoundTrip.
 Open Scope N_scope.
 
 (** every JSON-model value - nil, bool, int, float64, string, json.Number,
@@ -58,6 +58,14 @@ Theorem C16_skip_arr : forall l rest, jfits (JArr l) ->
   skip (jarr_body l ++ rest) WTSlice = Ok (len (jarr_body l)).
 Proof. exact skip_json_arr. Qed.
 Print Assumptions C16_skip_arr.
+
+(** as a struct field: the JSON codecs are part of the round-trip fragment of
+    C01 ([rt_ok CJMap], [rt_ok CJArr]) - inside any struct, at any depth, the
+    field goes through the decode loop and the slot receives the value (an
+    object merged by key into what the target already holds) *)
+Theorem C16_as_struct_field : FRT CJMap /\ FRT CJArr.
+Proof. split; [apply (proj2 (roundtrip_gen CJMap I))|apply (proj2 (roundtrip_gen CJArr I))]. Qed.
+Print Assumptions C16_as_struct_field.
 
 (** walking the same bytes with the codec's Descriptor emits exactly the
     Outputter calls of the value ([jev]), consuming exactly the encoding;
